@@ -36,10 +36,31 @@ REQUIRED = ["DaeVerif.C15.Props." + n for n in (
     "group_invariant_all_histories_partial",
     "select_min_is_unbeaten_partial",
     "tolerance_invariant_survives_reload_partial",
+    # the concurrent parts: all interleavings (Conc.lean)
+    "deliveries_agree_except_pending_partial",
+    "deliveries_agree_with_atomic_policy_switches",
+    "quiescent_sets_agree_with_flags",
+    "interleavings_refine_sequential",
 )]
 
 
 import re
+KEY_WINDOW = "c15-policy-switch-in-callback-window-nil-deref"
+KEY_BUILD = "c15-report-lost-in-set-build-window"
+# The two race witnesses of stream c15race (design_notes/C15.md, "Concurrent parts").  True: reported
+# through ctx.report under their keys (a VIOLATION until the key is listed as an open finding in
+# known_findings.jsonl, a KNOWN-FINDING line afterwards).  False: recorded in the evidence
+# (coverage.race_witnesses) and printed as a NOTE, never gating.
+GATE_RACE_FINDINGS = True
+
+
+def race_report(ctx, what, obj, key):
+    listed = any(k.get("kind") == "open" and k.get("key") == key for k in ctx.known)
+    if GATE_RACE_FINDINGS or listed:
+        ctx.report(what, obj, key=key)
+        return
+    ctx.cov.setdefault("race_witnesses", []).append({"key": key, "reproduced_on_the_real_code": True, "what": what[:600]})
+    ctx.say(f"NOTE (not gating, key {key} not listed): {what[:300]}")
 _CB = re.compile(r"^cb=\[[^\]]*\] ")
 
 
@@ -85,6 +106,10 @@ def compare(op, im, mo):
         if a == "err=other" and b == "err=noalive":
             return "note"
         return False
+    if op == "agree":
+        # the implementation lists the (domain, node) pairs whose set membership differs from the flag;
+        # the model lists the same and adds which of them no update in flight explains
+        return im.startswith("dis=") and im == mo.split(" unexp=")[0]
     if op == "capture":
         # per type: the recorded fallback is one of the nodes a non-strict selection may return
         if im.startswith("fb=") and mo.startswith("fb="):
@@ -108,7 +133,7 @@ def run(ctx):
         "the harness drives dialers through markAvailable, the real Dialer.Check / check(cycle) with a stub CheckFunc, markUnavailableInternal, ReportAvailableTraffic, RestoreHealthSnapshot, EnsureReloadSelectionFloor and, in package control, routeDial (the thresholds deciding WHEN a node is reported dead are C16's subject: the alive value told is echoed from the real code); recovery-confirmation timers are disabled (cancelled dialer context); backoff levels are set through the shim",
         "the op streams are not a function of the seed (wall-clock probe latencies read back into the ops, 1 s CachedTimeNano ticker behind backoff penalties, fastrand feeding the generator): verdict unaffected, counters vary slightly, replays carry the scenario's op text",
         "ControlPlane for chooseProxyDialer/routeDial is a literal whose parts come from real constructors (the production constructor loads eBPF objects); all outbound slots hold the group under test",
-        "locking / concurrent interleavings inside AliveDialerSet and DialerGroup are not modelled (each call is atomic in the model)",
+        "concurrency is modelled as three transition systems (Conc.lean: updates taken and delivered separately; a policy switch that builds its sets step by step; the aliveChangeCallback window of a notification) and driven on the real code by explicit single-goroutine schedules (deliveries permuted, actions issued from inside the callback); genuinely parallel execution (data races, memory ordering, lock implementation) is not exercised; RestoreHealthSnapshot / MarkAliveForReloadFallback stay atomic",
         "fastrand: only the set of possible answers of the random policy is compared, not their distribution",
     ]
     shim = os.path.join(VERIF, "harness", "overlay", "component", "outbound", "dialer", "c15_shim.go")
@@ -120,7 +145,7 @@ def run(ctx):
         return 0
 
     def harness(pkg, src, name, test):
-        binp = ctx.go_test_build(pkg, [src], name, extra_overlay=ov)
+        binp = ctx.go_test_build(pkg, src if isinstance(src, list) else [src], name, extra_overlay=ov)
         if not binp:
             return 2
         rc, out = ctx.run_harness(binp, test)
@@ -133,7 +158,7 @@ def run(ctx):
     from concurrent.futures import ThreadPoolExecutor
     with ThreadPoolExecutor(3) as ex:
         jobs = [ex.submit(prove),
-                ex.submit(harness, "component/outbound", "component/outbound/c15_test.go", "c15", "TestVerifC15"),
+                ex.submit(harness, "component/outbound", ["component/outbound/c15_test.go", "component/outbound/c15conc_test.go"], "c15", "TestVerifC15"),
                 # control/dial.go: the real chooseProxyDialer over a real group (package control)
                 ex.submit(harness, "control", "control/c15_test.go", "c15dial", "TestVerifC15Dial")]
         rcs = [j.result() for j in jobs]
@@ -141,7 +166,8 @@ def run(ctx):
         return 2
     n_eval = 0
     distinct = set()
-    for label in ("c15", "c15g2", "c15dial", "c15oob", "c15wit"):
+    n_unexp = {}
+    for label in ("c15", "c15g2", "c15dial", "c15oob", "c15wit", "c15conc", "c15concg2", "c15race"):
         ops, impl, model = (os.path.join(ctx.out, label + "." + e) for e in ("ops", "impl", "model"))
         if not os.path.exists(ops):
             ctx.say("HARNESS-FAILED no stream", label)
@@ -152,7 +178,30 @@ def run(ctx):
         lo, li, lm = read_lines(ops), read_lines(impl), read_lines(model)
         real = []
         cb_only = 0
+        # stream c15race, first scenario: a policy switch inside the callback window of a "revived
+        # without a latency" notification (Info logging) — the real code dereferences the nil
+        # minLatency.dialer after the window.  Everything from the crash to the end of that scenario is
+        # the finding, reported once under its key.
+        race_skip = set()
+        if label == "c15race":
+            for i, (op, im) in enumerate(zip(lo, li)):
+                if im.startswith("crash:"):
+                    j = i
+                    while j < len(lo) and not (j > i and lo[j].startswith("world ")):
+                        race_skip.add(j + 1)
+                        j += 1
+                    start = i
+                    while start > 0 and not lo[start].startswith("world "):
+                        start -= 1
+                    race_report(ctx, "(fix 0a25f68 missing?) SetSelectionPolicy(random) inside the aliveChangeCallback window of a notification that revived a node "
+                               "without a latency (min policy, Info logging) makes notifyLatencyChange dereference the nil "
+                               "minLatency.dialer after the window: " + im[:200],
+                               {"stream": label, "line": i + 1, "op": op, "impl": im, "scenario_ops": lo[start:i + 4]},
+                               KEY_WINDOW)
+                    break
         for ln, op, im, mo in mism:
+            if ln in race_skip:
+                continue
             if ln:
                 r = compare(op, im, mo)
                 if r == "cb-only":
@@ -178,14 +227,32 @@ def run(ctx):
         # three invariant bits printed by the real code must all be 1
         if True:
             for i, (op, im) in enumerate(zip(lo, li)):
+                if (i + 1) in race_skip:
+                    continue
                 if im.startswith("crash:"):
                     ctx.report(f"real code panicked on `{op}`: {im[:300]}", {"stream": label, "line": i + 1, "op": op, "impl": im})
                 for part in im.split(" | "):
                     if " inv=" in part and " inv=111" not in part:
                         ctx.report(f"alive-set invariant broken on the implementation after `{op}`: {part[:300]}",
                                    {"stream": label, "line": i + 1, "op": op, "impl": im})
-                if op.startswith(("sel ", "told ", "sample ", "choose ", "dial ", "restore ", "floor")):
+                if op.startswith(("sel ", "told ", "sample ", "choose ", "dial ", "restore ", "floor", "deliver ", "mark ", "obs ")):
                     distinct.add(im)
+            # property-level oracle (theorem deliveries_agree_except_pending), evaluated by the model on
+            # states the tie has just shown equal to the real ones: a (domain, node) pair whose set
+            # membership differs from the dialer's flag although no update about it is in flight
+            for i, (op, im, mo) in enumerate(zip(lo, li, lm)):
+                if op == "agree" and " unexp=" in mo and mo.split(" unexp=")[1] != "" and compare(op, im, mo):
+                    n_unexp[label] = n_unexp.get(label, 0) + 1
+                    start = i
+                    while start > 0 and not lo[start].startswith("world "):
+                        start -= 1
+                    what = ("a set disagrees with the dialer's alive flag although no report about that (domain, node) is in flight: "
+                            f"{mo} (stream {label} line {i + 1})")
+                    obj = {"stream": label, "line": i + 1, "impl": im, "model": mo, "scenario_ops": lo[start:i + 1]}
+                    if label == "c15race":
+                        race_report(ctx, what, obj, KEY_BUILD)
+                    else:
+                        ctx.report(what, obj)
     # regression guard for fix addc261 (former finding c15-hour-sentinel): stream c15wit, first scenario =
     # group {n0 [add_latency: 1h], n1}, n1 dead for tcp4, n0 probed OK -> n0 must be selected.
     oo, oi = read_lines(os.path.join(ctx.out, "c15wit.ops")), read_lines(os.path.join(ctx.out, "c15wit.impl"))
@@ -217,6 +284,17 @@ def run(ctx):
         ("cached choice switched to another node", c.get("best.switched", 0), 200),
         ("scenarios with a second group sharing dialers", c.get("scenario.second_group_sharing_dialers", 0), 30),
         ("probes on the periodic-cycle path (check with a cycleResult)", c.get("ev.probe_periodic_cycle", 0), 150),
+        ("callback windows entered with in-window actions", c.get("conc.window.entered", 0), 100),
+        ("selections issued inside a callback window", c.get("conc.window.action.select", 0), 80),
+        ("policy switches issued inside a callback window", c.get("conc.window.action.policy_switch", 0), 30),
+        ("updates taken without delivery (mark/obs)", c.get("conc.async.mark", 0) + c.get("conc.async.obs", 0), 400),
+        ("deliveries overtaking an older update", c.get("conc.async.deliver_overtaking_an_older_update", 0), 200),
+        ("deliveries made before an older update about the same (domain, node)", c.get("conc.async.deliver_before_older_update_about_same_pair", 0), 100),
+        ("reload floor / restore while a revival is in flight", c.get("conc.async.reload_op_while_revival_in_flight", 0), 40),
+        ("agree ops with pairs unsettled by updates in flight", c.get("conc.agree.with_unsettled_pairs", 0), 15),
+        ("scenarios ended at quiescence (all delivered, sets = flags)", c.get("conc.quiescent_end_of_scenario", 0), 80),
+        ("reports naming TCP by its TCP-DNS alias type", c.get("ev.report_named_tcp_dns_alias", 0), 300),
+        ("race witness: report landed in the set-build window", c.get("race.report_landed_in_build_window", 0), 1),
         ("routeDial ops", dial_c.get("op.dial", 0), 200),
         ("routeDial retries after network-unreachable", dial_c.get("dial.retry_after_unreachable", 0), 50),
         ("re-routed dials (domain++ or control-plane routing)", sum(v for k, v in dial_c.items() if k.startswith("dial.mode_c.out_u.dom_") and not k.endswith("dom_n")) + sum(v for k, v in dial_c.items() if ".out_x." in k), 80),
